@@ -487,6 +487,20 @@ func (en *Engine) applyContract(st *State, f *Frame, x *ssa.Call, fn *ssa.Functi
 		_ = o
 		st.assume(g)
 	}
+	if len(fc.Cases) > 0 {
+		var ds []*Term
+		var srcs []string
+		for _, c := range fc.Cases {
+			ds = append(ds, sc.evalBool(c.Expr))
+			srcs = append(srcs, c.Src)
+		}
+		g := Or(ds...)
+		if !g.IsTrue() {
+			en.flushSide(st)
+			en.addObl(st, "pre@"+short, g, fmt.Sprintf("one of the precondition cases of %s holds: %s", short, strings.Join(srcs, " | ")), pos)
+			st.assume(g)
+		}
+	}
 	en.flushSide(st)
 	var extra []*State
 	// panics clause
